@@ -157,7 +157,12 @@ class LLOneParser:
         for production in nullable_productions:
             if production.head not in llone_parsing_table:
                 llone_parsing_table[production.head] = {}
-            for first in follow_set.get(production.head, set()):
+            # A nullable body which is not empty can also start with the
+            # first symbols of its variables
+            firsts = self._get_first_set_production(production, first_set)
+            firsts = {x for x in firsts if x != Epsilon()}
+            for first in firsts.union(
+                    follow_set.get(production.head, set())):
                 if first not in llone_parsing_table[production.head]:
                     llone_parsing_table[production.head][first] = []
                 llone_parsing_table[production.head][first].append(
